@@ -186,7 +186,7 @@ def _leaf_label(path):
     return "not (" + T.show_cond(path[-1][0]) + ")"
 
 
-def _check_site(ctx, q, c, tbs, extra=None, site_label=""):
+def _check_site(ctx, q, c, tbs, extra=None, site_label="", mtype=None):
     """one struct/fromfile cut-over site: same count, same bytes, same type on both routes, for every format binding and key width"""
     nm = _short(q)
     node = c["node"]
@@ -238,13 +238,29 @@ def _check_site(ctx, q, c, tbs, extra=None, site_label=""):
                 ok = wper is not None and bi is not None and wper.is_const() and bi.is_const() and C.same(wper * bi, bnum)
                 ctx.check(ok, f"{nm} [{key}, {bits}-bit keys]: a value occupies `wper` = {wper!r} words of {bi!r} bytes", node,
                           None if ok else {"bytes per value": repr(C.norm(bnum))})
+    # which binding decodes which matrix type: odd Nastran types (1 real, 3 complex) are single precision
+    if mtype is not None:
+        good, detail = True, None
+        codes = set()
+        for path, (f_, *_r) in lvs:
+            si = T.struct_items(T.strval(f_, tbs[32]))
+            code = si[1][0][1] if si is not None and len(si[1]) == 1 else None
+            codes.add(code)
+            sel = len(path) == 1 and _rat(mtype) and C.same(path[0][0], F.fn("odd", mtype))
+            if not sel or code not in ("f", "d") or (code == "f") != path[0][1]:
+                good, detail = False, {"binding": _leaf_label(path), "struct code with 32-bit keys": code}
+        good = good and codes == {"f", "d"}
+        ctx.check(good, f"{nm}{site_label}: the single-precision formats decode exactly the odd matrix types (1 and 3), the double-precision formats the "
+                        "even ones", node, detail)
     # the switch itself
     t = C.fn_parts(C.norm(c["test"])) if _rat(c["test"]) else None
     ok = t is not None and t[0] == "ge0"
     if ok:
-        syms = {d[1] for d in C.walk_atoms(t[1][0]) if d[0] == "s"}
-        ok = any("utoff" in s for s in syms)
-    ctx.check(ok, f"{nm}{site_label}: the switch is on the tunable cut-off only", node, nontrivial=False)
+        # apart from what the count is made of, the test refers to plain settings only (nothing read from the file)
+        mine = {d for d in C.walk_atoms(C.norm(cnt))}
+        rest = [d for d in C.walk_atoms(t[1][0]) if d not in mine]
+        ok = bool(rest) and all(d[0] == "s" for d in rest)
+    ctx.check(ok, f"{nm}{site_label}: the switch compares the number of values with a setting (the tunable cut-off), nothing else", node, nontrivial=False)
 
 
 def r1_cutover_pairs(ctx):
@@ -265,7 +281,9 @@ def r1_cutover_pairs(ctx):
         # words per value: what the loader passed to the reader in that role
         bound = w.bound.get(id(rf))
         wv = _role(bound, rf, "binary", "wper") if bound is not None else None
-        _check_site(ctx, "OP4." + reader, sites[0], tbs["op4"], extra=[wv])
+        full = [r for r in w.returns if isinstance(r[0], tuple) and len(r[0]) == 4 and not all(_rat(x) and C.sym_name(x) == "None" for x in r[0])]
+        mtype = full[-1][0][3] if full else None
+        _check_site(ctx, "OP4." + reader, sites[0], tbs["op4"], extra=[wv], mtype=mtype if _rat(mtype) else F.sym("?"))
     # ---- op2
     n2 = 0
     for name in ("rdop2matrix", "rdop2record", "rdop2dynamics"):
@@ -276,7 +294,10 @@ def r1_cutover_pairs(ctx):
             continue
         for i, c in enumerate(w.cutovers):
             n2 += 1
-            _check_site(ctx, "OP2." + name, c, tbs["op2"], site_label=f" (site {i + 1})" if len(w.cutovers) > 1 else "")
+            mtype = None
+            if name == "rdop2matrix" and len(w.fn.args.args) > 1:
+                mtype = F.fn("idx", F.sym(w.fn.args.args[1].arg), F.const(4))      # the type field of the trailer
+            _check_site(ctx, "OP2." + name, c, tbs["op2"], site_label=f" (site {i + 1})" if len(w.cutovers) > 1 else "", mtype=mtype)
     ctx.check(n4 == 3 and n2 >= 4, f"cut-over rule bound to {n4} op4 sites and {n2} op2 sites", OP4 + ":1", nontrivial=False)
 
 
@@ -334,8 +355,23 @@ def r2_declared_sizes(ctx):
             if unresolved is not None and ok:
                 ctx.error(f"{n}: struct format of a decode cannot be resolved", e[3], unresolved)
                 continue
+            # the decoded tuple is indexed / unpacked within the number of items of the format
+            if ok and cnt is None:
+                decv = F.fn("dec", e[2])
+                for path, vals in lvs:
+                    for bits in (32, 64):
+                        it = T.struct_items(T.strval(vals[0], tbs[what][bits]))
+                        nitems = sum(c for c, _k in it[1]) if it is not None and all(c != "%d" for c, _k in it[1]) else None
+                        if nitems is None:
+                            continue
+                        for u in w.events:
+                            if u[0] == "decidx" and u[1].equals(decv) and not (-nitems <= u[2] < nitems):
+                                ok, bad = False, {"format": T.strval(vals[0], tbs[what][bits]).replace(T.ENDIAN, ""), "items": nitems, "index used": u[2]}
+                            if u[0] == "decunpack" and u[1].equals(decv) and u[2] != nitems:
+                                ok, bad = False, {"format": T.strval(vals[0], tbs[what][bits]).replace(T.ENDIAN, ""), "items": nitems, "unpacked into": u[2]}
             nsites += 1
-            ctx.check(ok, f"{n.split('/')[-1]}: the bytes read for a struct decode equal the size of its format, with 32- and 64-bit keys", e[3], bad)
+            ctx.check(ok, f"{n.split('/')[-1]}: the bytes read for a struct decode equal the size of its format, with 32- and 64-bit keys, and the "
+                          "decoded items are used within their number", e[3], bad)
     ctx.check(nsites >= 14, f"decode-size rule bound to {nsites} struct decodes", fn2, nontrivial=False)
     # ---- declared attributes (the state named by the property's anchors)
     for bits, label, word in ((64, "64-bit", 8), (32, "32-bit", 4)):
@@ -502,12 +538,16 @@ def r3_sibling_decoders(ctx):
     for reader, d in res.items():
         lp, dec, r, L, wper = d["lp"], d["dec"], d["r"], d["L"], d["wper"]
         if d["kind"] == "nonbigmat":
-            ws = _words_in([dec, r, L])
-            hf = _header_field(ws[0]) if len(ws) == 1 else None
-            if hf is None or hf[1] != 0 or hf[0] == "field":
-                ctx.error(f"{reader}: the packed header word of a string", lp.node, [repr(x) for x in ws])
+            # the packed header word: what the string loop decodes first (the first read / the first line of its body)
+            W = None
+            for e in d["w"].events:
+                if e[0] == "read" and C.fn_parts(e[1])[1][0].equals(lp.frame) and C.fn_parts(e[1])[1][1].is_zero():
+                    W = F.fn("idx", F.fn("dec", e[1]), F.const(0))
+                elif e[0] == "line" and C.fn_parts(e[1])[1][0].equals(lp.frame) and C.fn_parts(e[1])[1][1].is_zero():
+                    W = F.fn("call:int", e[1])
+            if W is None:
+                ctx.error(f"{reader}: the packed header word of a string", lp.node)
                 continue
-            W = ws[0]
             hi, lo = F.fn("hi16", W), F.fn("lo16", W)
             ok = _rat(L) and C.same(L, C.floordiv(hi - 1, wper), whole_values=False)
             ctx.check(ok, f"{reader}: values per string = ((IS >> 16) - 1) // words-per-value", lp.node, None if ok else repr(L))
@@ -551,6 +591,15 @@ def r3_sibling_decoders(ctx):
             ok = tot is not None and _rat(L) and _rat(pl) and C.same(tot, 2 + C.floordiv(L - 1, pl), whole_values=False)
             ctx.check(ok, f"{reader}: a string is one header line plus ceil(L / perline) data lines for the L values it stores", lp.node,
                       None if ok else {"lines": repr(tot), "values": repr(L)})
+    # words per value of the ASCII loader: 1 for the odd (single precision) matrix types, 2 otherwise
+    rd_ = res.get("_rd_nonbigmat_ascii") or res.get("_rd_bigmat_ascii")
+    if rd_ is not None:
+        wl = rd_["w"]
+        full = [r for r in wl.returns if isinstance(r[0], tuple) and len(r[0]) == 4 and not all(_rat(x) and C.sym_name(x) == "None" for x in r[0])]
+        mtype = full[-1][0][3] if full else None
+        ok = _rat(mtype) and C.same(rd_["wper"], C.phi(F.fn("odd", mtype), F.const(1), F.const(2)))
+        ctx.check(ok, "_loadop4_ascii: a value takes 1 word for the odd matrix types (single precision) and 2 words otherwise, the type being the "
+                      "one reported for the matrix", wl.fn, None if ok else repr(rd_["wper"]))
     # words per value: the ASCII skipper and the ASCII loader derive it from the matrix type identically
     sk = _w4(ctx, "_skipop4_ascii")
     la, call = _loader_with(ctx, "_loadop4_ascii", "_rd_nonbigmat_ascii")
@@ -1017,7 +1066,7 @@ def r6_cursor(ctx):
     fn = w.fn
     n = 0
     for lp in C.loops_in(w.top.items):
-        stores = [(nm, ix, val, st) for nm, ix, val, st in w.all_cells if _rat(ix) and _lv_in(ix, lp.frame)]
+        stores = [(nm, ix, val, st) for nm, ix, val, st in w.all_cells if any(st is x for x in ast.walk(lp.node)) or (_rat(ix) and _lv_in(ix, lp.frame))]
         sites = [c for c in w.cutovers if c["frame"].equals(lp.frame)]
         for nm, ix, val, st in stores:
             p = C.fn_parts(ix) if _rat(ix) else None
@@ -1025,12 +1074,11 @@ def r6_cursor(ctx):
                 continue
             lo, up = p[1][0], p[1][1]
             ps = _lv_in(lo, lp.frame)
-            if len(ps) != 1 or not lo.equals(ps[0]):
-                continue
             ext = up - lo
-            upd = [v for q, v in lp.carry if q.equals(ps[0])]
+            upd = [v for q, v in lp.carry if len(ps) == 1 and q.equals(ps[0])]
             n += 1
-            ok = len(upd) == 1 and _rat(upd[0]) and C.same(upd[0] - ps[0], ext, whole_values=False)
+            # the slice starts at the cursor itself (a loop-carried position) and the cursor moves on by the length of the slice
+            ok = len(ps) == 1 and lo.equals(ps[0]) and len(upd) == 1 and _rat(upd[0]) and C.same(upd[0] - ps[0], ext, whole_values=False)
             cnt_ok = len(sites) == 1 and C.same(ext, sites[0]["count_ff"], whole_values=False)
             ctx.check(ok and cnt_ok, "rdop2record: the write cursor advances by the number of values just decoded and stored", st,
                       None if ok and cnt_ok else {"slice": f"[{lo!r} : {up!r}]", "cursor after the record": repr(upd[0]) if upd else None,
@@ -1046,6 +1094,52 @@ def r6_cursor(ctx):
             sites = w.cutovers
             ok = kw is not None and kw[0] == "kw:dtype" and bool(sites) and all(C.same(kw[1][0], c["dtype"]) for c in sites)
     ctx.check(ok, "rdop2record: the preallocated output has N elements of the dtype the records are decoded with", fn)
+
+
+def r6b_matrix_rows(ctx):
+    """rdop2matrix: a record carries the (1-based) row number of its first value; n decoded values go to rows r-1 .. r-1+n of the current
+    column, two reals per complex value"""
+    w = _w2(ctx, "rdop2matrix")
+    if w is None:
+        return
+    rec = [lp for lp in C.loops_in(w.top.items) if not C.loops_in(lp.items) and any(c["frame"].equals(lp.frame) for c in w.cutovers)]
+    if len(rec) != 1:
+        ctx.error("rdop2matrix: record loop", w.fn)
+        return
+    lp = rec[0]
+    site = [c for c in w.cutovers if c["frame"].equals(lp.frame)][0]
+    stores = [(nm, ix, val, st) for nm, ix, val, st in w.all_cells if any(st is x for x in ast.walk(lp.node))]
+    row = F.fn("idx", F.fn("dec", F.fn("rd", lp.frame, F.const(4), KEYB)), F.const(0))     # the word after the record length
+    n = 0
+    for nm, ix, val, st in stores:
+        p = C.fn_parts(ix) if _rat(ix) else None
+        if p is None or p[0] != "tuple" or len(p[1]) != 2:
+            continue
+        sl = C.fn_parts(p[1][0]) if _rat(p[1][0]) else None
+        if sl is None or sl[0] != "slice" or not _rat(sl[1][0]) or not _rat(sl[1][1]):
+            continue
+        n += 1
+        lo, up = sl[1][0], sl[1][1]
+        ok = C.same(up - lo, site["count_ff"], whole_values=False)
+        ctx.check(ok, "rdop2matrix: a record's values are stored in as many rows as values were decoded", st, None if ok else {"rows": repr(up - lo)})
+        # reals per value: the factor by which the allocation multiplies the trailer's row count (2 for the complex types, stored as pairs)
+        alloc = None
+        for _k, v, _st in w.all_inits:
+            q = C.fn_parts(v) if _rat(v) else None
+            if q is not None and q[0] in ("call:np.zeros", "call:np.empty") and _rat(q[1][0]):
+                shp = C.fn_parts(q[1][0])
+                if shp is not None and shp[0] == "tuple" and len(shp[1]) == 2:
+                    alloc = shp[1][0]
+        trows = F.fn("idx", F.sym(w.fn.args.args[1].arg), F.const(2)) if len(w.fn.args.args) > 1 else None
+        good, detail = alloc is not None and trows is not None, None
+        if good:
+            for path, (lo_, al_) in C.leaves([lo, alloc]):
+                if not C.same(lo_ * trows, al_ * (row - 1), whole_values=False):
+                    good, detail = False, {"first row": repr(C.norm(lo_)), "rows allocated": repr(C.norm(al_)), "binding": _leaf_label(path),
+                                           "expected": "(row number - 1) x reals per value"}
+        ctx.check(good, "rdop2matrix: the first row of a record is its (1-based) row number - 1, times the reals per value the matrix was allocated "
+                        "with (2 for the complex types)", st, detail)
+    ctx.check(n >= 1, f"matrix placement rule bound to {n} stores", w.fn, nontrivial=False)
 
 
 # ------------------------------------------------------------------------------------------------------------------ R7
@@ -1223,13 +1317,18 @@ def r8_name_selection(ctx):
         ctx.check(ok, "_get_valid_names: the requested names are applied through _has_match to the names of the directory", gv.fn, nontrivial=False)
 
 
+def _r6(ctx):
+    r6_cursor(ctx)
+    r6b_matrix_rows(ctx)
+
+
 RULES = [
     ("C11-R1", r1_cutover_pairs, 45),
     ("C11-R2", r2_declared_sizes, 45),
     ("C11-R3", r3_sibling_decoders, 16),
     ("C11-R4", r4_read_equals_skip, 24),
     ("C11-R5", r5_listing_equals_read, 12),
-    ("C11-R6", r6_cursor, 3),
+    ("C11-R6", _r6, 5),
     ("C11-R7", r7_announced_format, 4),
     ("C11-R8", r8_name_selection, 2),
 ]
